@@ -32,29 +32,38 @@ pub struct Misbehave {
     pub target: AtomicI64,
     pub len: AtomicUsize,
     pub hit: AtomicBool,
+    /// a second closure that misbehaves during the same evaluation (-1: none), with its own length
+    pub target2: AtomicI64,
+    pub len2: AtomicUsize,
 }
 
 impl Misbehave {
     pub fn new() -> Arc<Misbehave> {
-        Arc::new(Misbehave { target: AtomicI64::new(-1), len: AtomicUsize::new(0), hit: AtomicBool::new(false) })
+        Arc::new(Misbehave { target: AtomicI64::new(-1), len: AtomicUsize::new(0), hit: AtomicBool::new(false), target2: AtomicI64::new(-1), len2: AtomicUsize::new(0) })
     }
 }
 
-/// value of function j at (x, args): Σ_i (i+2)·sin((i+1)·a_i + x + j)   (cos(x+j) for invariant functions)
+/// the x-dependence of function j: its own frequency and phase, so that the columns of different
+/// functions are linearly independent functions of x
+fn xj<T: Sc>(j: usize, x: T) -> T {
+    x * T::of(1.0 + 0.37 * j as f64) + T::of(j as f64)
+}
+
+/// value of function j at (x, args): Σ_i (i+2)·sin((i+1)·a_i·(1+x/4) + x_j)   (cos(x_j) for invariant functions)
 pub fn code_value<T: Sc>(j: usize, x: T, a: &[T]) -> T {
     if a.is_empty() {
-        return (x + T::of(j as f64)).cos_();
+        return xj::<T>(j, x).cos_();
     }
     let mut s = T::of(0.0);
     for (i, ai) in a.iter().enumerate() {
-        s += T::of((i + 2) as f64) * (T::of((i + 1) as f64) * *ai + x + T::of(j as f64)).sin_();
+        s += T::of((i + 2) as f64) * (T::of((i + 1) as f64) * *ai * (T::of(1.0) + x * T::of(0.25)) + xj::<T>(j, x)).sin_();
     }
     s
 }
 
 /// "derivative" closure of function j with respect to its q-th own argument (a code, not a true derivative)
 pub fn code_deriv<T: Sc>(j: usize, q: usize, x: T, a: &[T]) -> T {
-    let mut s = T::of((q + 2) as f64) * T::of((q + 1) as f64) * (T::of((q + 1) as f64) * a[q] + x + T::of(j as f64)).cos_();
+    let mut s = T::of((q + 2) as f64) * T::of((q + 1) as f64) * (T::of((q + 1) as f64) * a[q] * (T::of(1.0) + x * T::of(0.25)) + xj::<T>(j, x)).cos_();
     for (i, ai) in a.iter().enumerate() {
         s += T::of(0.001 * (i + 1) as f64) * *ai;
     }
@@ -67,6 +76,9 @@ fn closure<T: Sc>(id: i64, mb: Arc<Misbehave>, f: impl Fn(T, &[T]) -> T + Send +
             mb.hit.store(true, SeqCst);
             let n = mb.len.load(SeqCst);
             return DVector::from_element(n, T::of(1.0));
+        }
+        if mb.target2.load(SeqCst) == id {
+            return DVector::from_element(mb.len2.load(SeqCst), T::of(1.0));
         }
         x.map(|xi| f(xi, a))
     })
@@ -82,6 +94,9 @@ pub fn build_coded<T: Sc>(spec: &CodedSpec, alpha0: &[f64], mb: &Arc<Misbehave>)
                 if mbc.target.load(SeqCst) == id {
                     mbc.hit.store(true, SeqCst);
                     return DVector::from_element(mbc.len.load(SeqCst), T::of(1.0));
+                }
+                if mbc.target2.load(SeqCst) == id {
+                    return DVector::from_element(mbc.len2.load(SeqCst), T::of(1.0));
                 }
                 x.map(|xi| code_value::<T>(j, xi, &[]))
             });
